@@ -117,6 +117,7 @@ func resetGlobals() {
 	vtime.SetOnNow(nil)
 	vos.SetObserver(nil)
 	vos.ResetSteps()
+	vos.SetPageTear(false, nil)
 	vnet.SetDialer(nil)
 	vrand.SetInt(nil)
 	vrand.SetRead(nil)
@@ -475,4 +476,24 @@ func compareWeek(st *statsJSON, want map[glow.PublicKey]*weekDevice, tso uint32,
 		return "signature", fmt.Sprintf("week %d does not verify under the server key over the documented layout", tso)
 	}
 	return "", ""
+}
+
+// pageTearPhantom chooses, for each fixed-size-record file, how many earlier records to imagine in front of
+// the file so that the NEXT record appended straddles a page boundary (which record straddles in a real
+// file only depends on how many records precede it).
+func pageTearPhantom(dir string) map[string]int64 {
+	out := map[string]int64{}
+	for name, rec := range map[string]int64{"equipment-reports.dat": 80, "equipment-authorizations.dat": 148, "allDeviceStats.dat": 72} {
+		var size int64
+		if fi, err := os.Stat(filepath.Join(dir, name)); err == nil {
+			size = fi.Size()
+		}
+		for m := int64(0); m < 4096; m++ {
+			if at := (size + m*rec) % vos.PageSize; at+rec > vos.PageSize {
+				out[name] = m * rec
+				break
+			}
+		}
+	}
+	return out
 }
